@@ -49,7 +49,7 @@ func (env *Env) nopol() *Env {
 type quantCtx struct {
 	bv    string // bound variable name (index)
 	k     string // absolute-offset variable
-	cands [][2]string
+	cands [][3]string // (slice offset, shift, stride in slots)
 	apply int // -1: collecting candidates (plain form); >=0: rebase on cands[apply]
 }
 
@@ -541,13 +541,13 @@ func (e *Enc) evalExpr(x ast.Expr, env *Env) Val {
 		switch u := a.T.Underlying().(type) {
 		case *types.Slice:
 			sz := m.ilit(slots(u.Elem()))
-			if slots(u.Elem()) == 1 && i.QV != "" {
+			if slots(u.Elem()) >= 1 && i.QV != "" {
 				for qi := len(env.quants) - 1; qi >= 0; qi-- {
 					q := env.quants[qi]
 					if q.bv != i.QV {
 						continue
 					}
-					c := [2]string{a.L[1], i.QShift}
+					c := [3]string{a.L[1], i.QShift, fmt.Sprint(slots(u.Elem()))}
 					if q.apply < 0 {
 						found := false
 						for _, x := range q.cands {
@@ -946,6 +946,7 @@ func (e *Enc) evalCall(n *ast.CallExpr, env *Env) Val {
 		q := &quantCtx{bv: bv, k: bv + "!k", apply: -1}
 		qn := map[string]string{"all": "forall", "any": "exists"}[fname]
 		rng := and(m.ile(lo, bv), m.ilt(bv, hi))
+		guard := "true"
 		evalBody := func() (string, bool) {
 			inner := env.with(id.Name, Val{T: types.Typ[types.Int], L: []string{bv}, QV: bv, QShift: m.ilit(0)})
 			inner.quants = append(append([]*quantCtx(nil), env.quants...), q)
@@ -954,9 +955,9 @@ func (e *Enc) evalCall(n *ast.CallExpr, env *Env) Val {
 				return "", false
 			}
 			if fname == "all" {
-				return implies(rng, p.L[0]), true
+				return implies(and(guard, rng), p.L[0]), true
 			}
-			return and(rng, p.L[0]), true
+			return and(guard, rng, p.L[0]), true
 		}
 		plainBody, ok2 := evalBody()
 		if !ok2 {
@@ -969,12 +970,22 @@ func (e *Enc) evalCall(n *ast.CallExpr, env *Env) Val {
 		var forms []string
 		for ci := range q.cands {
 			q.apply = ci
+			// index = (K - off) / stride - shift, for K an element start: (K - off) mod stride == 0
+			delta := m.isub(q.k, q.cands[ci][0])
+			idxTerm := m.isub(delta, q.cands[ci][1])
+			guard = "true"
+			if q.cands[ci][2] != "1" {
+				if m == ModeBV {
+					continue // strided rebasing only over mathematical integers
+				}
+				idxTerm = m.isub("(div "+delta+" "+q.cands[ci][2]+")", q.cands[ci][1])
+				guard = eq("(mod "+delta+" "+q.cands[ci][2]+")", "0")
+			}
 			body, ok3 := evalBody()
+			guard = "true"
 			if !ok3 {
 				return Val{Bad: true}
 			}
-			// index = K - off - shift
-			idxTerm := m.isub(m.isub(q.k, q.cands[ci][0]), q.cands[ci][1])
 			forms = append(forms, fmt.Sprintf("(%s ((%s %s)) (let ((%s %s)) %s))", qn, q.k, m.smtSort(SI), bv, idxTerm, body))
 			if env.pol == 0 {
 				break // mixed positions: one form
